@@ -43,8 +43,10 @@ def pad_image(image):
     return bytes(image) + b"\xff" * pad
 
 
-def intel_hex(image, record_len=16, base=0, with_ela=False):
-    """Own Intel-HEX writer (data records, optional extended linear address, EOF)."""
+def intel_hex(image, record_len=16, base=0, with_ela=False, gap=None):
+    """Own Intel-HEX writer (data records, optional extended linear address, EOF).
+    ``gap`` = (a, b): the records covering image[a:b] are left out (a sparse file; the caller makes
+    sure those bytes are 0xFF, which is what an address gap encodes - erased flash)."""
     lines = []
 
     def rec(addr, rtype, data):
@@ -57,7 +59,8 @@ def intel_hex(image, record_len=16, base=0, with_ela=False):
     pos = 0
     while pos < len(image):
         chunk = image[pos:pos + record_len]
-        lines.append(rec(base + pos, 0, chunk))
+        if gap is None or not gap[0] <= pos < gap[1]:
+            lines.append(rec(base + pos, 0, chunk))
         pos += len(chunk)
     lines.append(rec(0, 1, b""))
     return "\n".join(lines) + "\n"
